@@ -1,5 +1,227 @@
 import NibabelModel.Model.C03
-/-! Props/C03 — the property theorems for C03 (statements + proofs; helper lemmas live in Lemmas/). -/
+import NibabelModel.Lemmas.C03
+import NibabelModel.Lemmas.C03_EcatMain
+/-! Props/C03 — array proxies: scaling applied pointwise; partial reads equal slicing.
+    (statements + short proofs; helper lemmas live in Lemmas/C03*.lean) -/
 namespace Nb.C03
+open Nb Nb.C06
+
+/-! ### scaling is pointwise, so it commutes with every gather -/
+
+/-- Indexing commutes with pointwise scaling by (broadcast) per-element parameters: gathering the
+    elements `src` of the scaled array is the same as scaling the gathered raw elements with the
+    parameters gathered BY THE SAME INDEX.  (`A`, `S`, `I`: raw array, slope array, intercept array
+    as functions of the element number; `f` arbitrary.) -/
+theorem pointwise_commutes_with_gather {ρ σ β} (f : ρ → σ → σ → β) (A : Nat → ρ) (S I : Nat → σ)
+    (src : List Nat) :
+    src.map (fun q => f (A q) (S q) (I q)) =
+      List.zipWith (fun x (p : σ × σ) => f x p.1 p.2) (src.map A) (List.zip (src.map S) (src.map I)) := by
+  induction src with
+  | nil => rfl
+  | cons q qs ih => simp [ih]
+
+example : [2, 0].map (fun q => (fun (x s i : Nat) => x * s + i) (q + 10) (q + 1) 7) =
+    List.zipWith (fun x (p : Nat × Nat) => x * p.1 + p.2) [12, 10] (List.zip [3, 1] [7, 7]) := by decide
+
+/-! ### generic `ArrayProxy` -/
+
+/-- the scaled value of stored element `q` -/
+def scaledElem {σ ρ β} (f : ρ → σ → σ → β) (raw : Int → ρ) (p : Params σ) (q : Nat) : β :=
+  f (raw (q : Int)) p.slope p.inter
+
+/-- `np.asarray(proxy)` holds, at element number `q`, the scaled stored element `q` — the whole
+    array path, unconditional. -/
+theorem proxyArray_eq {σ ρ β} (f : ρ → σ → σ → β) (raw : Int → ρ) (h : Heuristic) (p : Params σ) :
+    proxyArray f raw h p = .ok (p.shape, (List.range p.shape.prod).map (scaledElem f raw p)) := by
+  simp [proxyArray, getScaled, getUnscaled, canonLoop, allFull, Except.map, scaledElem, Function.comp_def]
+
+/-- WHOLE-ARRAY PATH, unconditional: for every index whose canonical form is "everything"
+    (`()`, `...`, `[:, :]`, `[0:n, ...]`, …) `proxy[idx]` is NumPy's `np.asarray(proxy)[idx]`:
+    same shape, and output element `k` is the scaled stored element `src[k]`. -/
+theorem getitem_whole_eq_index_of_array {σ ρ β} (f : ρ → σ → σ → β) (raw : Int → ρ) (h : Heuristic)
+    (p : Params σ) (idx : List IdxItem) (hw : canonLoop false idx p.shape = .ok (allFull p.shape)) :
+    getScaled f raw h p idx =
+      (npIndex idx p.shape p.order).map (fun r => (r.1, r.2.map (scaledElem f raw p))) := by
+  rw [npIndex_whole idx p.shape p.order hw]
+  simp [getScaled, getUnscaled, hw, Except.map, scaledElem, Function.comp_def]
+
+example : canonLoop false [.ellipsis, .slice ⟨some 0, some 3, none⟩] [2, 3] = .ok (allFull [2, 3]) := by decide
+
+/-- `proxy[idx] = np.asarray(proxy)[idx]` for EVERY basic index accepted by `canonical_slicers`
+    (hypothesis `hc`: excluded are only two Ellipses / more indices than axes, for which Python
+    raises before anything is read).  The whole-array path is unconditional; the `fileslice` path is
+    stated relative to property C06 (`hfs`: "fileslice reads the elements NumPy indexing selects").
+    Whatever the pointwise scaling `f`, slope and intercept are. -/
+theorem getitem_eq_index_of_array {σ ρ β} (f : ρ → σ → σ → β) (raw : Int → ρ) (h : Heuristic)
+    (p : Params σ) (idx : List IdxItem) (items : List Item)
+    (hc : canonLoop false idx p.shape = .ok items)
+    (hfs : items ≠ allFull p.shape →
+      fileslice h idx p.shape p.isz p.off p.flen p.order =
+        (npIndex idx p.shape p.order).map (fun r => (r.1, r.2.map Int.ofNat))) :
+    getScaled f raw h p idx =
+      (npIndex idx p.shape p.order).map (fun r => (r.1, r.2.map (scaledElem f raw p))) := by
+  by_cases hw : items = allFull p.shape
+  · subst hw; exact getitem_whole_eq_index_of_array f raw h p idx hc
+  · simp only [getScaled, getUnscaled, hc, hw, if_false, hfs hw]
+    cases npIndex idx p.shape p.order with
+    | error e => rfl
+    | ok r => simp [Except.map, scaledElem, Function.comp_def]
+
+example : ∃ items, canonLoop false [.int 1, .slice ⟨none, none, some (-1)⟩] [2, 3] = .ok items ∧
+    items ≠ allFull [2, 3] := ⟨_, rfl, by decide⟩
+
+/-! ### reshape -/
+
+/-- A reshaped proxy reads the SAME stored elements in the same (storage) order with the same
+    offset, item size, slope and intercept: `np.asarray(proxy.reshape(s))` enumerates exactly what
+    `np.asarray(proxy)` enumerates; only the shape differs (and has the same number of elements). -/
+theorem reshape_same_elements {σ ρ β} (f : ρ → σ → σ → β) (raw : Int → ρ) (h : Heuristic)
+    (dflt : Order) (p p' : Params σ) (shape : List Int) (hr : reshape dflt p shape = .ok p') :
+    p'.shape.prod = p.shape.prod ∧ p'.off = p.off ∧ p'.isz = p.isz ∧
+    (proxyArray f raw h p').map (·.2) = (proxyArray f raw h p).map (·.2) := by
+  unfold reshape at hr
+  cases hs : reshapeShape p.shape.prod shape with
+  | error e => simp [hs, bind, Except.bind] at hr
+  | ok s =>
+      simp only [hs, bind, Except.bind, pure, Except.pure, Except.ok.injEq] at hr
+      subst hr
+      have hp := reshapeShape_prod hs
+      refine ⟨hp, rfl, rfl, ?_⟩
+      rw [proxyArray_eq, proxyArray_eq]
+      simp [Except.map, hp, scaledElem]
+
+example : reshape .F (⟨[1, 1, 1, 1, 2, 3], 2, 544, .F, 2, 1⟩ : Params Int) [-1, 3] =
+    .ok ⟨[2, 3], 2, 544, .F, 2, 1⟩ := by decide
+
+/-! ### frozen parameters -/
+
+/-- The proxy holds copies: no sequence of later header operations changes what the proxy reads
+    with (shape, item size, offset, slope, intercept), although the header itself changes. -/
+theorem frozen_params (o : Order) (h : Hdr) (ops : List HdrOp) :
+    ((World.mk h (proxyOfHdr o h)).run ops).proxy = proxyOfHdr o h := by
+  suffices ∀ w : World, (w.run ops).proxy = w.proxy from this _
+  induction ops with
+  | nil => intro w; rfl
+  | cons op ops ih => intro w; simp only [World.run, List.foldl_cons] at ih ⊢; rw [ih]; rfl
+
+example : ((World.mk ⟨[2, 3], 2, 352, some 2, none⟩ (proxyOfHdr .F ⟨[2, 3], 2, 352, some 2, none⟩)).run
+    [.setShape [3, 3], .setSlopeInter (some 5) (some 5)]).hdr ≠ ⟨[2, 3], 2, 352, some 2, none⟩ := by decide
+
+/-! ### AFNI -/
+
+/-- Per-sub-brick scaling: in a `(…, T)` array stored in F order with `P` elements per sub-brick,
+    element `e` of sub-brick `t` is paired by `scaling[slicer]` with factor slot `t`; hence
+    (`afniScaleSlots`) every output element of `proxy[idx]` is paired with the factor of the
+    sub-brick its source element lies in. -/
+theorem afni_scaling_per_subbrick (P e t : Nat) (he : e < P) : (e + P * t) / P = t :=
+  slot_of_block P e t he
+
+example : (3 + 4 * 2) / 4 = 2 := by decide
+
+/-- A zero `BRICK_FLOAT_FACS` entry means "this sub-brick is not scaled" (factor one), a non-zero
+    entry is used as is — provided at least one entry is non-zero; when all are zero (or the
+    attribute is absent) there is no scaling at all. -/
+theorem afni_zero_factor_means_one {σ} (isZero : σ → Bool) (one : σ) (nvol : Nat) (fs : List σ)
+    (hnz : fs.all isZero = false) (t : Nat) (ht : t < nvol) (v : σ) (hv : fs[t]? = some v) :
+    ∃ sc, afniScaling isZero one nvol (some fs) = some sc ∧
+      sc[t]? = some (if isZero v then one else v) := by
+  refine ⟨(List.range nvol).map (fun t => match fs[t]? with
+      | some v => if isZero v then one else v
+      | none => one), by simp [afniScaling, hnz]; intro a _; rfl, ?_⟩
+  simp [ht, hv]
+
+theorem afni_all_zero_no_scaling {σ} (isZero : σ → Bool) (one : σ) (nvol : Nat) (fs : List σ)
+    (hz : fs.all isZero = true) : afniScaling isZero one nvol (some fs) = none := by
+  simp [afniScaling, hz]
+
+example : afniScaling (· == 0) 1 3 (some [0, 5, 0]) = some [1, 5, 1] := by decide
+
+/-! ### PAR/REC -/
+
+/-- With sequential slice indices `[0, 1, …, K-1]` the reordered whole array IS the REC file prefix:
+    element `q` of `rec[..., indices].reshape(shape, order='F')` is REC element `q`. -/
+theorem parrec_whole_sequential (S K : Nat) : parrecWhole S (List.range K) = List.range (S * K) :=
+  parrecWhole_range S K
+
+/-- NumPy basic indexing never selects an element outside the array (F order; every slice has a
+    non-zero step, as Python demands): the numbers in `npIndex` name real stored elements. -/
+theorem npIndex_lt (idx : List IdxItem) (shape : List Nat) (r : List Nat × List Nat)
+    (hv : ∀ s, IdxItem.slice s ∈ idx → s.Valid) (h : npIndex idx shape .F = .ok r) :
+    ∀ q ∈ r.2, q < shape.prod := npIndex_lt_F idx shape r hv h
+
+example : npIndex [.slice ⟨some (-9), none, some 2⟩, .int (-1)] [3, 2] .F = .ok ([2], [3, 5]) := by decide
+
+/-- `rec[..., indices].reshape(shape, 'F')[idx]` (the slow path, taken when the slice indices are
+    not sequential) returns REC elements `S*indices[q / S] + q % S`; when the indices ARE
+    `[0, 1, …, K-1]` these are the elements `q` themselves — i.e. exactly what the fast path
+    (`fileslice` on the REC file with the logical shape, C06: `= npIndex`) returns.  Hence both
+    paths agree.  The slope/intercept arrays are indexed with the SAME `idx` (`parrecScaleSlots`
+    is `npIndex` followed by `q ↦ q / S`, the slice the element lies in). -/
+theorem parrec_indices (S K : Nat) (shape : List Nat) (idx : List IdxItem) (r : List Nat × List Nat)
+    (hshape : shape.prod = S * K) (hv : ∀ s, IdxItem.slice s ∈ idx → s.Valid)
+    (hnp : npIndex idx shape .F = .ok r) :
+    r.2.map (fun q => (parrecWhole S (List.range K)).getD q 0) = r.2 ∧
+    parrecScaleSlots shape S idx = .ok (r.1, r.2.map (· / S)) := by
+  constructor
+  · rw [parrecWhole_range]
+    have hlt := npIndex_lt idx shape r hv hnp
+    conv => rhs; rw [← List.map_id r.2]
+    apply List.map_congr_left
+    intro q hq
+    have : q < S * K := by rw [← hshape]; exact hlt q hq
+    simp [List.getD_eq_getElem?_getD, this]
+  · simp [parrecScaleSlots, hnp, bind, Except.bind, pure, Except.pure]
+
+example : npIndex [.ellipsis, .int 1] [2, 1, 3] .F = .ok ([2, 1], [2, 3]) := by decide
+
+/-! ### ECAT -/
+
+/-- `np.asarray(proxy)` stacks the frames: frame `i` occupies elements `V*i … V*i+V-1` of the F-order
+    4-D array, so the stacked array's element number `q` IS "element `q`" of the numbering used by
+    `ecatGetitem` and `npIndex`. -/
+theorem ecat_array_frames (shape3 : List Nat) (T : Nat) :
+    ecatArray shape3 T = (shape3 ++ [T], List.range (shape3.prod * T)) := by
+  have hfe : ∀ i, frameElem shape3 i = (fun e => e + shape3.prod * i) := fun i => rfl
+  simp only [ecatArray, hfe]
+  rw [range_flatMap]
+
+/-- FRAME ASSEMBLY = NUMPY INDEXING.  For every basic index (ints, slices of any sign on every
+    axis incl. the frame axis, Ellipsis, new axes anywhere) on which NumPy indexing of the stacked
+    `(x, y, z, T)` array succeeds, the repaired `EcatImageArrayProxy.__getitem__` returns the same
+    shape and the same elements in the same order, and leaves no element of its `np.empty` buffer
+    unwritten.  In particular output position `k` on the frame axis holds source frame
+    `(slice3.sel T)[k]` (that is what `npIndex` says).  Unbounded in shape, frame count and index. -/
+theorem ecat_frames (shape3 : List Nat) (T : Nat) (idx : List IdxItem) (r : List Nat × List Nat)
+    (hv : ∀ s, IdxItem.slice s ∈ idx → s.Valid)
+    (hnp : npIndex idx (shape3 ++ [T]) .F = .ok r) :
+    ecatGetitem shape3 T idx = .ok (r.1, r.2.map some) := by
+  unfold npIndex at hnp
+  cases hc : canonicalSlicers idx (shape3 ++ [T]) with
+  | error e => simp [hc, bind, Except.bind] at hnp
+  | ok items =>
+      simp only [hc, bind, Except.bind, orient] at hnp
+      cases hs : itemsSels items (shape3 ++ [T]) with
+      | error e => simp [hs] at hnp
+      | ok sels =>
+          simp only [hs, pure, Except.pure, Except.ok.injEq] at hnp
+          subst hnp
+          exact ecat_frames_sels shape3 T idx items sels hc hv hs
+
+example : npIndex [.slice ⟨none, none, none⟩, .int 1, .newaxis, .ellipsis, .slice ⟨none, none, some (-2)⟩]
+    ([2, 2, 1] ++ [3]) .F = .ok ([2, 1, 1, 2], [10, 11, 2, 3]) := by decide
+
+/-- The pinned code wrote frame `i` to output position `i` (the SOURCE index): `[..., 1:]` on three
+    frames writes positions 1, 2 of a length-2 output — NumPy's `IndexError`. -/
+theorem ecat_frames_orig_counterexample :
+    ecatGetitemOrig [1, 1, 1] 3 [.ellipsis, .slice ⟨some 1, none, none⟩] = .error .index ∧
+    ecatGetitem [1, 1, 1] 3 [.ellipsis, .slice ⟨some 1, none, none⟩] = .ok ([1, 1, 1, 2], [some 1, some 2]) := by
+  decide
+
+/-- … and `[..., ::-1]` returned the frames UN-reversed. -/
+theorem ecat_frames_orig_reversed_counterexample :
+    ecatGetitemOrig [1, 1, 1] 3 [.ellipsis, .slice ⟨none, none, some (-1)⟩] =
+      .ok ([1, 1, 1, 3], [some 0, some 1, some 2]) ∧
+    npIndex [.ellipsis, .slice ⟨none, none, some (-1)⟩] [1, 1, 1, 3] .F = .ok ([1, 1, 1, 3], [2, 1, 0]) := by
+  decide
 
 end Nb.C03
